@@ -48,6 +48,10 @@ pub enum Leaf {
     Rank(Content),
     Sel(Content),
     SelZ(Content),
+    /// `Option<SelectSupport>` as it sits inside a serialized bitvector (`some` = present). Its body is a
+    /// concatenation of three integer vectors; its mapped view is `MappedOption<IntVectorMapper>`, which maps
+    /// only the first of them (a "partial view": good for skipping the option by its declared length).
+    OptSel { c: Content, some: bool },
     /// Set bits of `c` (universe `c.len * stride`, positions scaled by `stride`); multiset repeats some values.
     Sparse { c: Content, stride: usize, multiset: bool },
     /// Runs of `c`, scaled by `scale`. route 0: builder, one `try_set` per maximal run; 1: `copy_bit_vec` (scale ignored).
@@ -76,7 +80,12 @@ impl Payload {
     }
 
     pub fn mappable(&self) -> bool {
-        matches!(self.leaf, Leaf::VecU64(_) | Leaf::VecUsize(_) | Leaf::VecPair(_) | Leaf::Bytes(_) | Leaf::Str(_) | Leaf::Raw { .. } | Leaf::Int { .. })
+        matches!(self.leaf, Leaf::VecU64(_) | Leaf::VecUsize(_) | Leaf::VecPair(_) | Leaf::Bytes(_) | Leaf::Str(_) | Leaf::Raw { .. } | Leaf::Int { .. } | Leaf::OptSel { .. })
+    }
+
+    /// The mapped view covers only the first part of the structure: a cut in the rest cannot be noticed by it.
+    pub fn partial_view(&self) -> bool {
+        matches!(self.leaf, Leaf::OptSel { .. })
     }
 
     pub fn describe(&self) -> String {
@@ -110,7 +119,7 @@ pub struct GenCfg {
     pub allow_options: bool,
 }
 
-pub const N_KINDS: u32 = 20;
+pub const N_KINDS: u32 = 21;
 
 impl GenCfg {
     pub fn swarm(rng: &mut Rng, family: Family, max_len: usize) -> GenCfg {
@@ -125,7 +134,7 @@ impl GenCfg {
 }
 
 fn gen_leaf(rng: &mut Rng, cfg: &GenCfg) -> Leaf {
-    let mappable_kinds: [u32; 7] = [3, 4, 5, 6, 7, 8, 9];
+    let mappable_kinds: [u32; 8] = [3, 4, 5, 6, 7, 8, 9, 20];
     loop {
         let kind = match cfg.family {
             Family::All => rng.below(N_KINDS as u64) as u32,
@@ -167,6 +176,7 @@ fn gen_leaf(rng: &mut Rng, cfg: &GenCfg) -> Leaf {
                 let width = match rng.below(4) { 0 => *rng.pick(&[1usize, 8, 9, 16, 17, 31, 32, 33, 63, 64]), 1 => rng.range_usize(12, 64), _ => rng.range_usize(1, 11) };
                 Leaf::WmCore { c: gen_content(rng, m / 4), width, ity: rng.below(5) as u8 }
             },
+            20 => Leaf::OptSel { c: gen_bits(rng, m * 8), some: rng.chance(4, 5) },
             _ => Leaf::Wm { c: gen_content(rng, m / 4), width: if rng.chance(1, 10) { rng.range_usize(12, 14) } else { rng.range_usize(1, 11) }, ity: rng.below(5) as u8 },
         };
     }
@@ -226,6 +236,7 @@ impl Leaf {
         match self {
             Leaf::U64(_) | Leaf::Usize(_) | Leaf::Pair(..) => None,
             Leaf::VecU64(c) | Leaf::VecUsize(c) | Leaf::VecPair(c) | Leaf::Bytes(c) | Leaf::Str(c) | Leaf::Rank(c) | Leaf::Sel(c) | Leaf::SelZ(c) => Some(c),
+            Leaf::OptSel { c, .. } => Some(c),
             Leaf::Raw { c, .. } | Leaf::Int { c, .. } | Leaf::Bv { c, .. } | Leaf::Sparse { c, .. } | Leaf::Rl { c, .. } | Leaf::WmCore { c, .. } | Leaf::Wm { c, .. } => Some(c),
         }
     }
@@ -235,6 +246,7 @@ impl Leaf {
         match &mut l {
             Leaf::U64(_) | Leaf::Usize(_) | Leaf::Pair(..) => {},
             Leaf::VecU64(c) | Leaf::VecUsize(c) | Leaf::VecPair(c) | Leaf::Bytes(c) | Leaf::Str(c) | Leaf::Rank(c) | Leaf::Sel(c) | Leaf::SelZ(c) => *c = n,
+            Leaf::OptSel { c, .. } => *c = n,
             Leaf::Raw { c, .. } | Leaf::Int { c, .. } | Leaf::Bv { c, .. } | Leaf::Sparse { c, .. } | Leaf::Rl { c, .. } | Leaf::WmCore { c, .. } | Leaf::Wm { c, .. } => *c = n,
         }
         l
@@ -504,6 +516,38 @@ impl Probe for WaveletMatrix {
             out.push(self.rank(self.len(), v) as u64);
         }
         out.push(self.iter().fold(0u64, |a, b| a.wrapping_mul(31).wrapping_add(b)));
+    }
+}
+
+/// `Option<SelectSupport>` under its own name, so that it can have a mapped view of its own.
+#[derive(PartialEq, Debug)]
+pub struct SelOpt(pub Option<SelectSupport<Identity>>);
+
+impl Serialize for SelOpt {
+    fn serialize_header<W: io::Write>(&self, writer: &mut W) -> io::Result<()> { self.0.serialize_header(writer) }
+    fn serialize_body<W: io::Write>(&self, writer: &mut W) -> io::Result<()> { self.0.serialize_body(writer) }
+    fn load<R: io::Read>(reader: &mut R) -> io::Result<Self> { Ok(SelOpt(Option::<SelectSupport<Identity>>::load(reader)?)) }
+    fn size_in_elements(&self) -> usize { self.0.size_in_elements() }
+}
+
+impl Probe for SelOpt {
+    fn probe(&self, out: &mut Vec<u64>) { self.0.probe(out); }
+}
+
+impl MapView for SelOpt {
+    type View<'a> = MappedOption<'a, IntVectorMapper<'a>>;
+    fn compare<'a>(&self, view: &Self::View<'a>) -> Result<(), String> {
+        match (&self.0, view.as_ref()) {
+            (None, None) => Ok(()),
+            (Some(sel), Some(first)) => {
+                // The first integer vector of the body, decoded from the serialized bytes.
+                let mut bytes: Vec<u8> = Vec::new();
+                sel.serialize(&mut bytes).map_err(|e| e.to_string())?;
+                let samples = IntVector::load(&mut &bytes[..]).map_err(|e| e.to_string())?;
+                samples.compare(first)
+            },
+            _ => Err("MappedOption over Option<SelectSupport>: Some/None mismatch".into()),
+        }
     }
 }
 
@@ -919,6 +963,7 @@ impl Payload {
             Leaf::Rank(c) => lazy(p, || { let bv = build_bv(c, 0, 0); RankSupport::new(&bv) }),
             Leaf::Sel(c) => lazy(p, || { let bv = build_bv(c, 0, 0); SelectSupport::<Identity>::new(&bv) }),
             Leaf::SelZ(c) => lazy(p, || { let bv = build_bv(c, 0, 0); SelectSupport::<Complement>::new(&bv) }),
+            Leaf::OptSel { c, some } => lazy(p, || SelOpt(if *some { let bv = build_bv(c, 0, 0); Some(SelectSupport::<Identity>::new(&bv)) } else { None })),
             Leaf::Sparse { c, stride, multiset } => lazy(p, || build_sparse(c, *stride, *multiset)),
             Leaf::Rl { c, scale, route } => lazy(p, || build_rl(c, *scale, *route)),
             Leaf::WmCore { c, width, ity } => lazy(p, || build_wm_core(c, *width, *ity)),
